@@ -55,7 +55,7 @@ DEAD = _Dead()
 
 def preprocess(path, incs=(), defs=()):
     """gcc -E with -undef: no host (x86-64, linux, GNUC) macros, only the target macros in defs"""
-    cmd = ["gcc", "-E", "-undef", "-x", "assembler-with-cpp"] + ["-I" + i for i in incs] + ["-D" + d for d in defs] + [path]
+    cmd = ["gcc", "-E", "-undef", "-D__ELF__", "-x", "assembler-with-cpp"] + ["-I" + i for i in incs] + ["-D" + d for d in defs] + [path]
     p = subprocess.run(cmd, stdout=subprocess.PIPE, stderr=subprocess.PIPE)
     if p.returncode != 0:
         raise Stuck("gcc -E failed: " + p.stderr.decode()[-500:])
